@@ -63,10 +63,15 @@ type cfg struct {
 	Lat      int      // latency table index (lowest-latency only)
 	Pre      bool     // lowest-latency only: every backend already has a recorded latency
 	Host     string   // virtual host sent by the client
+	Two      bool     // two routes ("*.x" and "*.y") with the same strategy and the same backend list
 }
 
 func (c cfg) name() string {
-	return fmt.Sprintf("bfs:%s|%s|lat%d|pre=%v|%q", c.Strategy, strings.Join(c.Backends, ","), c.Lat, c.Pre, c.Host)
+	n := fmt.Sprintf("bfs:%s|%s|lat%d|pre=%v|%q", c.Strategy, strings.Join(c.Backends, ","), c.Lat, c.Pre, c.Host)
+	if c.Two {
+		n += "|two-routes"
+	}
+	return n
 }
 
 // substituted backend list as findRoute will see it ("$1" -> first label; the route is "*.x").
@@ -85,13 +90,17 @@ var latTables = [][]time.Duration{
 }
 
 type op struct {
-	Kind string `json:"k"`           // conn | ping | close
-	Fail int    `json:"f,omitempty"` // bitmask over the distinct backends: which ones refuse the dial
+	Kind  string `json:"k"`           // conn | ping | close
+	Fail  int    `json:"f,omitempty"` // bitmask over the distinct backends: which ones refuse the dial
+	Route int    `json:"r,omitempty"` // two-route configs: which route the client's host selects
 }
 
 func (o op) String() string {
 	if o.Kind == "close" {
 		return "close"
+	}
+	if o.Route != 0 {
+		return fmt.Sprintf("%s(route#%d,fail=%03b)", o.Kind, o.Route, o.Fail)
 	}
 	return fmt.Sprintf("%s(fail=%03b)", o.Kind, o.Fail)
 }
@@ -110,13 +119,16 @@ type world struct {
 		rel   func()
 	}
 	measured  map[string]time.Duration
-	attempts  int  // attempts so far on the route
-	rrAligned bool // every earlier attempt consumed exactly one selection
+	attempts  [2]int  // attempts so far, per route
+	rrAligned [2]bool // every earlier attempt on the route consumed exactly one selection
 }
 
 func newWorld(c cfg) *world {
-	w := &world{c: c, sm: NewStrategyManager(), measured: map[string]time.Duration{}, rrAligned: true}
+	w := &world{c: c, sm: NewStrategyManager(), measured: map[string]time.Duration{}, rrAligned: [2]bool{true, true}}
 	w.routes = []config.Route{{Host: []string{"*.x"}, Backend: append([]string(nil), c.Backends...), Strategy: c.Strategy}}
+	if c.Two {
+		w.routes = append(w.routes, config.Route{Host: []string{"*.y"}, Backend: append([]string(nil), c.Backends...), Strategy: c.Strategy})
+	}
 	w.list = c.list()
 	w.distinct = distinctCanon(w.list)
 	w.dupFree = len(w.distinct) == len(w.list)
@@ -149,7 +161,11 @@ func (w *world) attempt(o op) (failKey, failDesc, obs string) {
 	}
 	var dialed []string // raw, in order
 	limit := 2*len(w.list) + 3
-	_, _, _, routeHost, next, err := findRoute(w.routes, logr.Discard(), c30Client{}, &packet.Handshake{ServerAddress: w.c.Host, ProtocolVersion: 765, Port: 25565, NextStatus: 2}, w.sm)
+	vhost := w.c.Host
+	if o.Route == 1 {
+		vhost = strings.TrimSuffix(vhost, ".x") + ".y"
+	}
+	_, _, _, routeHost, next, err := findRoute(w.routes, logr.Discard(), c30Client{}, &packet.Handshake{ServerAddress: vhost, ProtocolVersion: 765, Port: 25565, NextStatus: 2}, w.sm)
 	if err != nil {
 		return "findRoute/error", fmt.Sprintf("findRoute failed: %v", err), ""
 	}
@@ -233,9 +249,9 @@ func (w *world) attempt(o op) (failKey, failDesc, obs string) {
 					return "order/sequential", ctx + fmt.Sprintf(": try #%d is %s, config order says %s", j+1, c, remaining[0]), ""
 				}
 			case config.StrategyRoundRobin:
-				if j == 0 && w.rrAligned {
-					if want := w.distinct[w.attempts%len(w.distinct)]; c != want {
-						return "order/round-robin", ctx + fmt.Sprintf(": attempt #%d (all earlier ones took one backend each) starts at %s, rotation says %s", w.attempts+1, c, want), ""
+				if j == 0 && w.rrAligned[o.Route] {
+					if want := w.distinct[w.attempts[o.Route]%len(w.distinct)]; c != want {
+						return "order/round-robin", ctx + fmt.Sprintf(": attempt #%d on this route (all earlier ones took one backend each) starts at %s, the route's rotation says %s", w.attempts[o.Route]+1, c, want), ""
 					}
 				}
 			case config.StrategyLeastConnections:
@@ -271,9 +287,9 @@ func (w *world) attempt(o op) (failKey, failDesc, obs string) {
 	}
 	// model update
 	if len(dialed) != 1 {
-		w.rrAligned = false
+		w.rrAligned[o.Route] = false
 	}
-	w.attempts++
+	w.attempts[o.Route]++
 	if tryErr == nil {
 		c := refCanon(okAddr)
 		if o.Kind == "conn" {
@@ -369,7 +385,8 @@ func configs(thorough bool) []cfg {
 	}
 	rec(nil)
 	var out []cfg
-	for _, st := range []config.Strategy{config.StrategySequential, config.StrategyRoundRobin, config.StrategyLeastConnections, config.StrategyLowestLatency, config.StrategyRandom} {
+	// "" = no strategy configured: the documented default is sequential
+	for _, st := range []config.Strategy{config.StrategySequential, config.StrategyRoundRobin, config.StrategyLeastConnections, config.StrategyLowestLatency, config.StrategyRandom, ""} {
 		for _, l := range lists {
 			hosts := []string{"q.x"}
 			if strings.Contains(strings.Join(l, ","), "$1") {
@@ -390,6 +407,12 @@ func configs(thorough bool) []cfg {
 			}
 		}
 	}
+	// two routes with the same strategy and the same backends: rotation is per route, load is per backend
+	for _, st := range []config.Strategy{config.StrategyRoundRobin, config.StrategyLeastConnections, config.StrategySequential} {
+		for _, l := range [][]string{{"a:1", "b:1"}, {"a:1", "b:1", "c:1"}} {
+			out = append(out, cfg{Strategy: st, Backends: l, Host: "q.x", Two: true})
+		}
+	}
 	return out
 }
 
@@ -398,6 +421,9 @@ func opsFor(c cfg) []op {
 	var ops []op
 	for f := 0; f < 1<<n; f++ {
 		ops = append(ops, op{Kind: "conn", Fail: f})
+		if c.Two {
+			ops = append(ops, op{Kind: "conn", Fail: f, Route: 1})
+		}
 	}
 	ops = append(ops, op{Kind: "close"})
 	if c.Strategy == config.StrategyLowestLatency {
@@ -434,27 +460,59 @@ func (m *monSource) Seed(seed int64) {}
 type tally struct {
 	open, inTrack, inRel int
 	perOpen, perBusy     map[string]int // per raw backend: open connections / calls in progress
+	// a status-API reader is inside ActiveConnections(): smallest "open" and largest "open + calls in progress" seen meanwhile
+	reading bool
+	lo, hi  int
 }
 
 func newTally() *tally { return &tally{perOpen: map[string]int{}, perBusy: map[string]int{}} }
+
+// note is called after every change of the tallies.
+func (t *tally) note() {
+	if !t.reading {
+		return
+	}
+	if t.open < t.lo {
+		t.lo = t.open
+	}
+	if h := t.open + t.inTrack + t.inRel; h > t.hi {
+		t.hi = h
+	}
+}
+
+// readerBody is the status API: it reads the total while connections open and close.
+func readerBody(x *sched.X, sm *StrategyManager, t *tally) func() {
+	return func() {
+		t.reading, t.lo, t.hi = true, t.open, t.open+t.inTrack+t.inRel
+		n := int(sm.ActiveConnections())
+		t.reading = false
+		if n < t.lo || n > t.hi {
+			x.Fail("counters/active-connections-read-off", "a concurrent ActiveConnections() returned %d; while it ran between %d and %d connections were open or being opened/closed", n, t.lo, t.hi)
+		}
+	}
+}
 
 func trackBody(x *sched.X, sm *StrategyManager, t *tally, host, backend string) func() {
 	return func() {
 		t.inTrack++
 		t.perBusy[backend]++
+		t.note()
 		rel := sm.TrackConnection(host, backend)
 		t.inTrack--
 		t.perBusy[backend]--
 		t.open++
 		t.perOpen[backend]++
+		t.note()
 		sched.Point("conn-open", nil)
 		t.open--
 		t.perOpen[backend]--
 		t.inRel++
 		t.perBusy[backend]++
+		t.note()
 		rel()
 		t.inRel--
 		t.perBusy[backend]--
+		t.note()
 	}
 }
 
@@ -520,6 +578,21 @@ func scenarios() []schedrun.Scenario {
 			sm, t := NewStrategyManager(), newTally()
 			x.Go("c1", func() { trackBody(x, sm, t, "h.x", "a:1")(); trackBody(x, sm, t, "h.x", "a:1")() })
 			x.Go("c2", func() { trackBody(x, sm, t, "h.x", "a:1")(); trackBody(x, sm, t, "h.x", "a:1")() })
+			trackOracle(x, sm, t, "a:1")
+		}},
+		{Name: "status-api-reader-vs-track", Quick: 3, Thorough: 5, Body: func(x *sched.X) {
+			// the status API sums the per-route map while connections on two routes open and close
+			sm, t := NewStrategyManager(), newTally()
+			x.Go("c1", trackBody(x, sm, t, "h.x", "a:1"))
+			x.Go("c2", trackBody(x, sm, t, "g.x", "b:1"))
+			x.Go("api", readerBody(x, sm, t))
+			trackOracle(x, sm, t, "a:1", "b:1")
+		}},
+		{Name: "status-api-reader-vs-track-twice", Quick: 2, Thorough: 4, Body: func(x *sched.X) {
+			// keys are deleted when they drop to zero and re-created by the next connection
+			sm, t := NewStrategyManager(), newTally()
+			x.Go("c1", func() { trackBody(x, sm, t, "h.x", "a:1")(); trackBody(x, sm, t, "h.x", "a:1")() })
+			x.Go("api", func() { readerBody(x, sm, t)(); readerBody(x, sm, t)() })
 			trackOracle(x, sm, t, "a:1")
 		}},
 		{Name: "least-connections-vs-track", Quick: 3, Thorough: 6, Body: func(x *sched.X) {
@@ -620,16 +693,27 @@ func TestVerif(t *testing.T) {
 				if r.Expired() {
 					break
 				}
-				res := bfs.Explore(bfs.Config[op]{Name: c.name(), Ops: opsFor(c), Depth: depth, Deadline: r.DeadlineTime(),
+				d := depth
+				if c.Two {
+					d = depth + 1 // a rotation disturbed by the other route shows from the third attempt on
+				}
+				res := bfs.Explore(bfs.Config[op]{Name: c.name(), Ops: opsFor(c), Depth: d, Deadline: r.DeadlineTime(),
 					Run: func(h []op) bfs.Outcome { return runHistory(c, h) }})
 				states += res.States
 				trans += res.Transitions
-				perStrategy["strategy:"+string(c.Strategy)] += res.Transitions
+				if c.Strategy == "" {
+					perStrategy["strategy:(none configured)"] += res.Transitions
+				} else {
+					perStrategy["strategy:"+string(c.Strategy)] += res.Transitions
+				}
 				if len(distinctCanon(c.list())) != len(c.list()) {
 					perStrategy["list:with-duplicate-identities"] += res.Transitions
 				}
 				if c.Host != "q.x" {
 					perStrategy["list:client-made-unparsable-address"] += res.Transitions
+				}
+				if c.Two {
+					perStrategy["routes:two-routes-same-backends"] += res.Transitions
 				}
 				for o := range res.Outcomes {
 					outcomes[string(c.Strategy)+"|"+o] = true
